@@ -1,29 +1,27 @@
 #!/bin/bash
-# usage: try_mutant.sh <mutant-dir> <prop> [tier]   (mutant-dir has patch.diff + demo_test.go)
-# 1. confirms the mutant in a scratch worktree (suite green with it, demo fails with it, demo passes without)
-# 2. applies it to /repo, runs ./check <prop>, reverts /repo.
+# usage: try_mutant.sh <mutant-dir> <prop> [tier]   (mutant-dir has patch.diff + a *_test.go demo)
+# 1. confirms the mutant in a scratch worktree of /repo HEAD (existing suite green with it, demo fails with it,
+#    demo passes without it); 2. runs ./check <prop> against that worktree (VERIF_REPO), never touching /repo.
 set -u
 export GOFLAGS=-mod=mod GOPROXY=off GOSUMDB=off GOTOOLCHAIN=local
 D=$1; P=$2; TIER=${3:-quick}
 WT=$(mktemp -d /tmp/mutwt-XXXX); rmdir $WT
+L=$(mktemp -d /tmp/mutlog-XXXX)
 git -C /repo worktree add -q --detach $WT HEAD || exit 3
-cleanup() { git -C /repo worktree remove --force $WT 2>/dev/null; git -C /repo checkout -q -- . ; }
+cleanup() { git -C /repo worktree remove --force $WT 2>/dev/null; rm -rf $L; }
 trap cleanup EXIT
 DEMO=$(ls $D/*_test.go | head -1)
 DEMODIR=$(python3 -c "import json,sys; print(json.load(open('$D/agent_meta.json')).get('demo_dir','.'))" 2>/dev/null); DEMODIR=${DEMODIR:-.}
 cp $DEMO $WT/$DEMODIR/zz_demo_test.go
-( cd $WT/$DEMODIR && go test -count=1 -run . . >/tmp/mut_demo_clean.log 2>&1 ); CLEAN=$?
-if ! git -C $WT apply $D/patch.diff 2>/tmp/mut_apply.log; then
-  if ! git -C $WT apply -3 $D/patch.diff 2>>/tmp/mut_apply.log; then echo "PATCH-DOES-NOT-APPLY"; cat /tmp/mut_apply.log; exit 3; fi
+( cd $WT/$DEMODIR && go test -count=1 -run . . >$L/demo_clean.log 2>&1 ); CLEAN=$?
+if ! git -C $WT apply $D/patch.diff 2>$L/apply.log; then
+  if ! git -C $WT apply -3 $D/patch.diff 2>>$L/apply.log; then echo "PATCH-DOES-NOT-APPLY"; cat $L/apply.log; exit 3; fi
 fi
-( cd $WT/$DEMODIR && go test -count=1 -run . . >/tmp/mut_demo_mut.log 2>&1 ); MUT=$?
+( cd $WT/$DEMODIR && go test -count=1 -run . . >$L/demo_mut.log 2>&1 ); MUT=$?
 rm $WT/$DEMODIR/zz_demo_test.go
-( cd $WT && go test -count=1 ./... >/tmp/mut_suite.log 2>&1 ); SUITE=$?
+( cd $WT && go test -count=1 ./... >$L/suite.log 2>&1 ); SUITE=$?
 echo "demo on clean tree: rc=$CLEAN (want 0); demo with mutant: rc=$MUT (want !=0); suite with mutant: rc=$SUITE (want 0)"
-( cd $WT && git diff HEAD > /tmp/mut_current.diff )
 if [ $CLEAN -ne 0 ] || [ $MUT -eq 0 ] || [ $SUITE -ne 0 ]; then echo "MUTANT-NOT-CONFIRMED"; exit 4; fi
-git -C /repo apply /tmp/mut_current.diff || exit 3
-cd /verif && ./check $P --tier $TIER > /tmp/mut_check.log 2>&1; RC=$?
-git -C /repo checkout -q -- .
-echo "check $P rc=$RC"; grep -c '^VIOLATION' /tmp/mut_check.log; grep -v '^VIOLATION\|signature' /tmp/mut_check.log | tail -8
+cd /verif && VERIF_REPO=$WT VERIF_NO_EVIDENCE=1 ./check $P --tier $TIER > $L/check.log 2>&1; RC=$?
+echo "check $P rc=$RC violations=$(grep -c '^VIOLATION' $L/check.log)"; grep -v '^VIOLATION\|signature' $L/check.log | tail -4
 exit 0
